@@ -338,7 +338,7 @@ fn check_state(pid: &str, kind: Kind, ops: &[MOp], m: &Msg, case: &str, hist: &[
 }
 
 pub fn explore(ex: &Ex) {
-    let depth = ex.pick(2usize, 4, 6);
+    let depth = ex.pick(2usize, 5, 8);
     let cap = ex.pick(20_000usize, 1_000_000, 20_000_000);
     for kind in msgbuild::ALL_KINDS {
         if kind == Kind::Signature {
@@ -346,7 +346,8 @@ pub fn explore(ex: &Ex) {
         }
         let ops = msgbuild::ops_of(kind);
         let name: &'static str = Box::leak(format!("c06.{:?}", kind).into_boxed_str());
-        let d = if kind == Kind::Sign && ex.scale == Scale::Thorough { depth - 1 } else { depth };
+        // COSE_Sign states do not merge (signers accumulate): it gets a smaller depth
+        let d = if kind == Kind::Sign { ex.pick(2usize, 4, 5) } else { depth };
         let spec = Spec {
             pid: ex.pid,
             name,
